@@ -46,6 +46,9 @@ CLAIMED = {
  "C19": ("7/C19", "CFG edge-cut guard entailment with linear atoms on the merge function's field stores, pair-travels-together path rule, key/argument provenance and lock rules on the update method, ownership of the view map, feeder call-site table; thorough tier: exhaustive evaluation of the extracted guarded assignment on the finite quotient of orderings",
          "Structural necessary conditions only: leader/term overwritten together and only from an update that names a leader and (current has none or strictly larger term); membership only with larger config-change index; entry keyed by the update's shard and merged with the entry under that key, under the write lock; only update() writes the view and all feeders call it; header copies term/leader of the requested shard. Thorough tier adds order independence, idempotence and term monotonicity on the finite quotient (an enumeration of an extracted abstraction, reported separately). Gossip convergence is not decided.",
          "go/types+go/ssa; Raft election safety (equal terms name equal leaders) for the quotient check"),
+ "C12": ("7/C12", "writer-reader agreement of layout constants and offsets (type-checked constants, array widths, slice bounds), ownership of the key bytes (use only as copy source), constant facts on type constants and bookkeeping names, shared key-space/bounds obligations of C01",
+         "Structural necessary conditions only: encoder and decoders agree on header width, version position, type-byte and key offsets; key bytes are copied verbatim and decoded as sub-slices; only the version byte of the header varies; user < system; bookkeeping names non-empty and not starting with 0x00; bounds and bookkeeping keys use the same encoder. Injectivity/order preservation then follow from a stated lemma, not from the check.",
+         "go/types+go/ssa; lemma: constant prefixing is injective and monotone"),
 }
 PENDING_REASON = "rules designed (DESIGN.md section 7), check not built yet"
 checks=[]; na=[]
